@@ -88,6 +88,15 @@ def reader_shape(ctx, rname):
     return fi, (order, fields, k, first, u)
 
 
+def _parents(node, stop):
+    out = []
+    p = getattr(node, "_parent", None)
+    while p is not None and p is not stop:
+        out.append(p)
+        p = getattr(p, "_parent", None)
+    return out
+
+
 def r1(ctx):
     writers, readers, notes = fold_tables(ctx)
     for n in notes:
@@ -141,7 +150,19 @@ def r1(ctx):
             dv = calls_named(rfi, "deserialize_value")
             rd = [c for c in calls_named(rfi, "read") if norm(c.func) == "%s.read" % rfi.params[0]]
             lv = norm(dv[0]._parent.targets[0]) if dv and isinstance(dv[0]._parent, ast.Assign) else None
-            ok = len(dv) == 1 and len(rd) == 1 and norm(rd[0].args[0]) == lv
+            first = [c for c in rd if c.args and norm(c.args[0]) == lv]
+            # further reads only to complete a short read: inside `while len(x) < length` with read(length - len(x))
+            rest = [c for c in rd if c not in first]
+            def _completes(c):
+                loops = [p_ for p_ in _parents(c, rfi.node) if isinstance(p_, ast.While)]
+                if not loops or not c.args:
+                    return False
+                t = loops[0].test
+                if not (isinstance(t, ast.Compare) and len(t.ops) == 1 and isinstance(t.ops[0], ast.Lt) and norm(t.comparators[0]) == lv
+                        and isinstance(t.left, ast.Call) and norm(t.left.func) == "len"):
+                    return False
+                return norm(c.args[0]) == "%s - %s" % (lv, norm(t.left))
+            ok = len(dv) == 1 and len(first) == 1 and all(_completes(c) for c in rest)
             ctx.check(ok, "C13.R1", rfi, "%s: tagged length, then read(length)" % rname, witness=[norm(c) for c in dv + rd])
             if kind == "str":
                 enc = [c for c in calls_named(wfi, "encode")]
